@@ -157,14 +157,14 @@ CLAIMED = {
               "clause (at most two replies) is NOT proved: it is monitored on the implementation (bounce of every reply "
               "up to 4 hops, for generated reply-typed messages and for the responder's own replies), together with the "
               "extracted monitor ok_C12 (a reply-typed message of protocol X is not answered by an X reply). "
-              "Frame level (Properties/C12frame.v): for every frame of at most 4096 octets, whatever reply() emits satisfies the monitor ok_C12x (layers 2-4 replies silent; for every datagram and every TCP data segment, a DNS- / STUN- / RPC- / SMB-reply-typed payload is never answered with a reply of that protocol -- own-responder silence for RPC message type 1 incl. across segment cuts and for the SMB reply flag, plus shape lemmas for every other responder's output); part B: if a reply-typed message is answered at all, the answering responder is another protocol's (C12id_*, for every frame); part C partially: two consecutive replies of a bounce chain never come from the same context-dependent responder, and a chain of exactly two replies is exhibited."),
+              "Frame level (Properties/C12frame.v): for every frame of at most 4096 octets, whatever reply() emits satisfies the monitor ok_C12x (layers 2-4 replies silent; for every datagram and every TCP data segment, a DNS- / STUN- / RPC- / SMB-reply-typed payload is never answered with a reply of that protocol -- own-responder silence for RPC message type 1 incl. across segment cuts and for the SMB reply flag, plus shape lemmas for every other responder's output); part B: if a reply-typed message is answered at all, the answering responder is another protocol's (C12id_*, for every frame); part C (Properties/C12chain.v): on the current tables, for every reply-typed datagram of the property's list and every octet-valued client context, the reflection chain has at most two replies (C12_chain_bound_current; also stated on three consecutive frame exchanges with arbitrary addressing, C12_chain_frames); the proof runs the dumped table over byte-predicate shapes of every emitted payload with a proved-sound abstract interpreter, and shows that a reply-typed start is never handed to the HTTP, SSH or Gh0st responders; the two families of chains of length exactly two are exhibited."),
         design="DESIGN.md section 5, C12",
         note=("Partial: chain clause monitored, not proved; SMB reply flag is C17's negative clause, RPC reply message type "
               "rests on identification (C10) and on the message-type test added by fix c541e3c. Two defects found by this "
               "check were repaired (per-flow parser never reset; RPC REPLY messages answered on an RPC flow). "
               "Observations outside the property: SSH banners and Gh0st frames are valid requests as well as replies, and "
               "a FIN|ACK is answered with a FIN|ACK, so two responders can bounce those for ever. "
-              "The first monitor ok_C12 (Spec/C12.v) demanded more than the text (content classifiers too coarse for byte strings that are both an RPC reply and a STUN request, both RPC layouts applied on both transports, clauses applied to continuation segments): C12_spec_monitor_refuted has the three witnesses; the check uses the corrected ok_C12x (Spec/C12x.v). Still partial: the chain bound (at most two replies) is proved only in the no-repeat form, monitored on the implementation otherwise; cross-layout / cross-dialect claims need a table hypothesis."),
+              "The first monitor ok_C12 (Spec/C12.v) demanded more than the text (content classifiers too coarse for byte strings that are both an RPC reply and a STUN request, both RPC layouts applied on both transports, clauses applied to continuation segments): C12_spec_monitor_refuted has the three witnesses; the check uses the corrected ok_C12x (Spec/C12x.v). The chain bound is proved for UDP (the SSH banner and the Gh0st frame, which are requests as well as replies and bounce for ever, are outside the property's list and provably unreachable from a listed start); over TCP the first-segment cases are proved, later segments are covered by the stateless clauses. Cross-layout / cross-dialect claims need a table hypothesis."),
         technique="Coq theorems (finite flag table + per-responder lemmas on the context-free cores) + extracted monitor + reflection-chain monitor on the implementation"),
     "C13": dict(
         text=("Coq theorems over the model of the HTTP responder and of proto::repl, for the tables and the 401 template "
